@@ -385,31 +385,32 @@ theorem C18_empty_needs_full_mask :
 
 /-! ### duplicates, order, shape of the result -/
 
-/-- two CPU lists naming the same CPUs (duplicates, any order) have the same effect -/
-theorem C18_dedup (c : Cfg) (hg : c.Good) (k : Kernel) (pid : Nat) (st : PState) (l l' : List Int)
+/-- two CPU lists naming the same CPUs (duplicates, any order) have the same effect — under
+    every configuration, i.e. whether or not the front end de-duplicates first -/
+theorem C18_dedup (c : Cfg) (k : Kernel) (pid : Nat) (st : PState) (l l' : List Int)
     (hpid : pid ≠ 0) (hst : k.procs pid = some st) (hn : k.ncpu ≤ 1024)
     (hl : AllLong l) (hl' : AllLong l') (hne : l ≠ []) (hne' : l' ≠ [])
     (hsame : ∀ x, x ∈ l ↔ x ∈ l') :
     step c k pid (.cpuAffinity (some l)) = step c k pid (.cpuAffinity (some l')) := by
   have e1 : l.isEmpty = false := by cases l <;> simp_all
   have e2 : l'.isEmpty = false := by cases l' <;> simp_all
-  simp only [step, cpuAffinity, e1, e2, Bool.false_eq_true, if_false, dedup, hg.dedup, if_true]
-  have hdiag : ∀ el, diagnose (List.range k.ncpu) el (pySet l) = diagnose (List.range k.ncpu) el (pySet l') := by
+  simp only [step, cpuAffinity, e1, e2, Bool.false_eq_true, if_false]
+  have hdiag : ∀ el, diagnose (List.range k.ncpu) el (dedup c l) = diagnose (List.range k.ncpu) el (dedup c l') := by
     intro el
     rw [Bool.eq_iff_iff, diagnose_true, diagnose_true]
     constructor
-    · rintro ⟨x, hx, h⟩; exact ⟨x, (mem_pySet _ _).2 ((hsame x).1 ((mem_pySet _ _).1 hx)), h⟩
-    · rintro ⟨x, hx, h⟩; exact ⟨x, (mem_pySet _ _).2 ((hsame x).2 ((mem_pySet _ _).1 hx)), h⟩
+    · rintro ⟨x, hx, h⟩; exact ⟨x, (mem_dedup c _ _).2 ((hsame x).1 ((mem_dedup c _ _).1 hx)), h⟩
+    · rintro ⟨x, hx, h⟩; exact ⟨x, (mem_dedup c _ _).2 ((hsame x).2 ((mem_dedup c _ _).1 hx)), h⟩
   by_cases hm : (-1 : Int) ∈ l
   · have hm' : (-1 : Int) ∈ l' := (hsame _).1 hm
-    have a := cpuSetOfSeq_minus1 (allLong_pySet hl) ((mem_pySet l _).2 hm)
-    have b := cpuSetOfSeq_minus1 (allLong_pySet hl') ((mem_pySet l' _).2 hm')
+    have a := cpuSetOfSeq_minus1 (allLong_dedup c hl) ((mem_dedup c l _).2 hm)
+    have b := cpuSetOfSeq_minus1 (allLong_dedup c hl') ((mem_dedup c l' _).2 hm')
     simp only [cpuAffinitySet, cextAffinitySet, a, b, hdiag]
   · have hm' : (-1 : Int) ∉ l' := fun h => hm ((hsame _).2 h)
-    obtain ⟨m, a, ha⟩ := cpuSetOfSeq_ok (allLong_pySet hl) (fun h => hm ((mem_pySet l _).1 h))
-    obtain ⟨m', b, hb⟩ := cpuSetOfSeq_ok (allLong_pySet hl') (fun h => hm' ((mem_pySet l' _).1 h))
-    have ha' : ∀ x : Nat, x ∈ m ↔ (x < 1024 ∧ (x : Int) ∈ l) := fun x => by rw [ha, mem_pySet]
-    have hb' : ∀ x : Nat, x ∈ m' ↔ (x < 1024 ∧ (x : Int) ∈ l) := fun x => by rw [hb, mem_pySet, hsame]
+    obtain ⟨m, a, ha⟩ := cpuSetOfSeq_ok (allLong_dedup c hl) (fun h => hm ((mem_dedup c l _).1 h))
+    obtain ⟨m', b, hb⟩ := cpuSetOfSeq_ok (allLong_dedup c hl') (fun h => hm' ((mem_dedup c l' _).1 h))
+    have ha' : ∀ x : Nat, x ∈ m ↔ (x < 1024 ∧ (x : Int) ∈ l) := fun x => by rw [ha, mem_dedup c]
+    have hb' : ∀ x : Nat, x ∈ m' ↔ (x < 1024 ∧ (x : Int) ∈ l) := fun x => by rw [hb, mem_dedup c, hsame]
     have hg1 := granted_eq k st m l hn ha'
     have hg2 := granted_eq k st m' l hn hb'
     have hsys : sysSchedSetaffinity k pid m = sysSchedSetaffinity k pid m' := by
